@@ -353,10 +353,19 @@ def load_known():
     if os.path.exists(p):
         for line in open(p):
             line = line.strip()
-            m = re.match(r'known:\s+property=(\S+)\s+obligation=(\S+)\s+(.*)$', line)
+            m = re.match(r'known:\s+property=(\S+)\s+obligation=(\S+)\s+(?:input=\{(.*?)\}\s+)?(.*)$', line)
             if m:
-                known.append({'property': m.group(1), 'obligation': m.group(2), 'what': m.group(3)})
+                known.append({'property': m.group(1), 'obligation': m.group(2), 'input': m.group(3), 'what': m.group(4)})
     return known
+
+
+def known_match(known, prop, f):
+    """a known finding matches on (property, obligation id) and, when it names an input, on that input being the failing one"""
+    oid = obligation_id(f)
+    for x in known:
+        if x['property'] == prop and x['obligation'] == oid and (not x.get('input') or x['input'] in (f.get('site') or '')):
+            return x
+    return None
 
 
 def main():
@@ -470,30 +479,28 @@ def report(prop, tier, seed, results, extra, wall):
             if f['aux']:
                 aux_only.append(f)
                 continue
-            oid = obligation_id(f)
-            k = [x for x in known if x['property'] == prop and x['obligation'] == oid]
+            k = known_match(known, prop, f)
             if k:
-                known_hits.append((k[0], f))
+                known_hits.append((k, f))
             else:
                 violations.append(f)
     for e in extra:
         for u in e.get('undecided', []):
             undecided.append('%s: %s' % (e['name'], u))
         for f in e.get('failures', []):
-            oid = obligation_id(f)
-            k = [x for x in known if x['property'] == prop and x['obligation'] == oid]
+            k = known_match(known, prop, f)
             if k:
-                known_hits.append((k[0], f))
+                known_hits.append((k, f))
             else:
                 violations.append(f)
     if aux_only and not violations:
         undecided.append('only auxiliary obligations fail: ' + ', '.join(sorted({obligation_id(f) for f in aux_only})))
     # ---- replay files + output lines
-    outdir = os.path.join(VERIF, 'replay', 'out')
+    outdir = os.path.join(VERIF, 'replay', 'out' if not os.environ.get('VERIF_NO_EVIDENCE') else 'out-selftest')
     os.makedirs(outdir, exist_ok=True)
     seen = set()
     for k, f in known_hits:
-        key = (k['obligation'])
+        key = (k['obligation'], k.get('input'))
         if key in seen:
             continue
         seen.add(key)
@@ -502,7 +509,8 @@ def report(prop, tier, seed, results, extra, wall):
     byid = {}
     del_ids = []
     for f in violations:
-        byid.setdefault(obligation_id(f), []).append(f)
+        # bounded obligations are distinguished by their input, deductive ones by function and kind
+        byid.setdefault(obligation_id(f) + ((' @ ' + f['site'][:120]) if f['kind'] == 'bounded' else ''), []).append(f)
     for oid, fs in sorted(byid.items()):
         if all(f.get('fallback') for f in fs) and not any(f.get('counterexample') for f in fs):
             # not decided by the verifier alone (see verify_unit): only a concrete failing execution of the real code makes it a violation
@@ -602,8 +610,9 @@ def report(prop, tier, seed, results, extra, wall):
         'wall_s': round(wall, 2),
         'violations': len(byid),
     }
-    os.makedirs(os.path.join(VERIF, 'evidence'), exist_ok=True)
-    json.dump(ev, open(os.path.join(VERIF, 'evidence', prop + '.json'), 'w'), indent=1)
+    if not os.environ.get('VERIF_NO_EVIDENCE'):
+        os.makedirs(os.path.join(VERIF, 'evidence'), exist_ok=True)
+        json.dump(ev, open(os.path.join(VERIF, 'evidence', prop + '.json'), 'w'), indent=1)
     if byid:
         return 1
     if undecided:
